@@ -1,6 +1,5 @@
-import json
 from mindsdb_sql.parser.ast.base import ASTNode
-from mindsdb_sql.parser.utils import indent
+from mindsdb_sql.parser.utils import indent, dump_option_value
 from mindsdb_sql.parser.ast.select.operation import Object
 
 class Select(ASTNode):
@@ -146,13 +145,13 @@ class Select(ASTNode):
             for key, value in self.using.items():
                 if isinstance(value, Object):
                     args = [
-                        f'{k}={json.dumps(v)}'
+                        f'{k}={dump_option_value(v, json_style=True)}'
                         for k, v in value.params.items()
                     ]
                     args_str = ', '.join(args)
                     value = f'{value.type}({args_str})'
                 else:
-                    value = json.dumps(value)
+                    value = dump_option_value(value, json_style=True)
 
                 using_ar.append(f'{Identifier(key).to_string()}={value}')
 
